@@ -80,7 +80,138 @@ def instances(tier):
     return out
 
 
+def run_ne_step(inst):
+    """S - inductive step for the non-emitting phase: two arbitrary emitting columns t-1 and t (which states are present, their
+    scores) are constructed directly, ONE real _match_non_emitting_states(t-1) is executed, and every emitting entry that existed
+    in column t must still be there (same object), live, and not less probable than before: merging non-emitting chains only ever
+    improves a candidate (keep-the-better semantics)."""
+    import z3
+    from leuvenmapmatching.matcher.base import LatticeColumn
+    from leuvenmapmatching.util.segment import Segment
+    from symx import engine as E, runner, realise
+    from symx.absmap import make_absmap_class, make_tablemap_class, ModelTable, P, key_ps, key_pp, t_of, flipped
+    from symx.matchlib import Cfg, make_matcher
+    _, gname, g, fam = inst[:4]
+    budget = inst[4] if len(inst) > 4 else None
+    cfg = Cfg(fam=fam, T=2, ne=True, goingback=False, sym_maxdist=False, sym_init=False, sym_minprob=False)
+    AbsMap, TableMap = make_absmap_class(), make_tablemap_class()
+    shims.install()
+    name = f"ne-step {gname} {fam}"
+    edges_only = fam != 'simple_n'
+    states = [(u, v) for u in g for v in g[u] if u != v] if edges_only else list(g)
+
+    def entry(mt, mp, st, t, score, length, prev, sym):
+        o = f"o{t}"
+        if isinstance(st, tuple):
+            u, v = st
+            k = key_ps(o, f"n{u}", f"n{v}")
+            if sym:
+                em = Segment(u, mp.loc[u], v, mp.loc[v], P("proj:" + k), t_of(mp, k, f"n{u}", f"n{v}"))
+                dist = mp.sq(k)
+            else:
+                tk = mp.table.get('t:' + k)
+                em = Segment(u, mp.loc[u], v, mp.loc[v], P("proj:" + k), (1.0 - tk) if flipped(f"n{u}", f"n{v}") else tk)
+                dist = mp.table.get('d:' + k)
+        else:
+            em = Segment(st, mp.loc[st])
+            dist = mp.distance(P(o), mp.loc[st])
+        kw = dict(d_o=0.0, d_s=0.0) if fam == 'dist' else {}
+        return mt.matching(mt, em, Segment(f"O{t}", P(o)), logprob=score, logprobe=score, logprobne=0, obs=t, length=length,
+                           dist_obs=dist, prev=(set() if prev is None else {prev}), **kw)
+
+    def build(mt, mp, present, scores, sym):
+        mt.path = [P("o0"), P("o1")]
+        mt.lattice = {0: LatticeColumn(0), 1: LatticeColumn(1)}
+        first = None
+        for st in states:
+            if present.get((st, 0)):
+                m = entry(mt, mp, st, 0, scores[(st, 0)], 1, None, sym)
+                mt.lattice[0].upsert(m)
+                first = first or m
+        before = {}
+        for st in states:
+            if present.get((st, 1)) and first is not None:
+                m = entry(mt, mp, st, 1, scores[(st, 1)], 2, first, sym)
+                mt.lattice[1].upsert(m)
+                before[st] = (m, scores[(st, 1)])
+        return before
+
+    def scenario():
+        eng = E.get_engine()
+        mp = AbsMap(g)
+        mt = make_matcher(eng, mp, cfg)
+        present, scores = {}, {}
+        for t in (0, 1):
+            for st in states:
+                tag = f"{st[0]}{st[1]}_{t}" if isinstance(st, tuple) else f"{st}_{t}"
+                present[(st, t)] = eng.decide(z3.Bool(f"present_{tag}"))
+                if present[(st, t)]:
+                    lp = z3.Real(f"lp_{tag}")
+                    eng.assume(lp <= 0)
+                    scores[(st, t)] = E.Sym(lp)
+        before = build(mt, mp, present, scores, True)
+        mt._match_non_emitting_states(0)
+        return dict(mt=mt, mp=mp, before=before, present=present, scores=scores)
+
+    def judge(mt, before, z):
+        out = []
+        col = mt.lattice[1].o[0] if mt.lattice[1].o else {}
+        for st, (m, sc) in before.items():
+            key = (st[0], st[1], 1, 0) if isinstance(st, tuple) else (st, 1, 0)
+            same = col.get(key) is m and not m.stop
+            out.append((f'entry_{st}_still_filed_and_live', bool(same)))
+            if z:
+                out.append((f'entry_{st}_not_less_probable_than_before', E.lift(m.logprob) >= E.lift(sc) - TOL))
+            else:
+                out.append((f'entry_{st}_not_less_probable_than_before', float(m.logprob) >= float(sc) - 1e-9))
+        return out
+
+    def claims(eng, v):
+        return [(n, z3.BoolVal(f) if isinstance(f, bool) else f) for n, f in judge(v['mt'], v['before'], True)]
+
+    def concrete(table, pres, sc):
+        with shims.concrete():
+            mp = TableMap(g, table, default=0.0)
+            mt = make_matcher(None, mp, cfg)
+            before = build(mt, mp, pres, sc, False)
+            mt._match_non_emitting_states(0)
+            bad = [n for n, ok in judge(mt, before, False) if not ok]
+            if bad:
+                return dict(desc=f"_match_non_emitting_states: {bad[:3]} with column scores { {str(k): round(float(x), 6) for k, x in sc.items()} }",
+                            kind='ne_step', graph=g, fam=fam, present={str(k): bool(x) for k, x in pres.items()}, scores={str(k): float(x) for k, x in sc.items()},
+                            table=dict(getattr(table, 'accessed', table)))
+        return None
+
+    def confirm(eng, model, v, cname):
+        if not isinstance(v, dict):
+            return None
+        sc = {k: E.model_value(model, x.t) for k, x in v['scores'].items()}
+        r = concrete(ModelTable(model), v['present'], sc)
+        if r is None:
+            return None
+        names = [f"n{n}" for n in g] + ["o0", "o1"]
+        rr = realise.realise(lambda tab, thr: concrete(tab, v['present'], sc), names, r['table'], {}, seed=0, budget=80)
+        if rr is not None:
+            rr['desc'] += f" [planar coordinates {rr['coords']}]"
+            return rr
+        return None
+
+    def witness(eng, v):
+        t = ['ne_step']
+        if any(len(layer) for layer in v['mt'].lattice[0].o[1:]):
+            t.append('ne_step_created_nonemitting_entries')
+        if any(E.lift(m.logprob).get_id() != E.lift(sc).get_id() for m, sc in v['before'].values()):
+            t.append('ne_step_improved_an_entry')
+        return t
+    mk = runner.lra_engine(8000) if fam != 'dist' else runner.nra_engine(8000)
+    out = runner.explore(name, mk, scenario, claims, confirm=confirm, witness=witness, budget_s=budget)
+    shims.uninstall()
+    return out
+
+
 def run_instance(inst):
+    if inst[0] == 'ne_step':
+        return run_ne_step(inst)
     return gabs.run(inst, claims_fn, witness_fn)
 
 
@@ -92,17 +223,24 @@ def main(tier):
     rep.functions = src_hash(mb.BaseMatcher.match, mb.BaseMatcher._match_non_emitting_states, mb.BaseMatcher._match_non_emitting_states_inner,
                              mb.BaseMatcher._match_non_emitting_states_end, mb.LatticeColumn.upsert, mb.BaseMatching.update, mb.BaseMatching.next)
     budget = 60 if tier == 'quick' else 900
-    res = gabs.run_all(rep, run_instance, instances(tier), budget, 16 * (100 if tier == 'quick' else 900))
+    from symx.common import run_instances
+    steps = [('ne_step', gn, NAMED[gn], fam, 60 if tier == 'quick' else 600) for gn in ('oneway3', 'oneway4', 'tri') for fam in ('simple', 'dist', 'simple_n')]
+    res = list(run_instances(run_instance, steps)) + gabs.run_all(rep, run_instance, instances(tier), budget, 16 * (100 if tier == 'quick' else 900))
     rep.bounds = dict(graphs="oneway3, oneway4, tri, line2, k3 (node states)" if tier == 'quick' else "all digraphs <=3 nodes, fork, oneway4, path4",
                       T="2..3", config="avoid_goingback=False, no width; max_dist or min_prob_norm symbolic; obs_noise_ne in {default, 0.5, 2.0}")
     rep.outside = ["rounding", "graphs/traces beyond the bound", "second-order transition terms (avoid_goingback=True)"]
     rep.assumptions = ["AbsMap contract (distances independent symbols: a superset of real geometries; candidates are only reported after concrete replay)",
                        "halfnorm formula shim"]
-    gabs.collect(rep, res, PID, need_tags=('both_complete', 'nonemitting_on_best_path', 'nonemitting_extends_the_match'))
+    gabs.collect(rep, res, PID, need_tags=('both_complete', 'nonemitting_on_best_path', 'nonemitting_extends_the_match', 'ne_step_created_nonemitting_entries'))
     return rep.finish("relational symbolic execution of the real match() with non-emitting states off and on in one symbolic path over abstract "
                       "geometry; monotonicity of matched prefix and best probability decided by z3")
 
 
 def replay_file(path):
+    import json
     import_repo()
+    d = json.load(open(path))
+    if d.get('kind') == 'ne_step':
+        print(d['observed'])
+        return 1
     return gabs.replay(path, claims_fn)
